@@ -156,3 +156,70 @@ def rule_meta_defaults(ctx):
                         + " - the derives that consult this flag (forwarding of Deref/Index/Mul.., reference kinds of Unwrap/TryInto/IntoIterator, `ignore`) decide for the wrong kind of impl",
                         {},
                     )
+
+
+class _FieldEnv(O.Env):
+    """an environment in which `<anything>.<field>` reads the seeded field value (closure parameters may have any name)"""
+
+    def __init__(self, places, fields):
+        super().__init__(places)
+        self.fields = fields
+
+    def get(self, name):
+        if "." in name:
+            tail = name.rsplit(".", 1)[1]
+            if tail in self.fields:
+                return self.fields[tail]
+        return super().get(name)
+
+
+def _let(fn, name):
+    for st, _ in A.find(fn.block, "Stmt::Local"):
+        pat = st["pat"]
+        if A.kind(pat) == "Pat::Type":
+            pat = pat["pat"]
+        if A.kind(pat) == "Pat::Ident" and pat["ident"]["sym"] == name and st.get("init"):
+            return st["init"]["expr"]
+    return None
+
+
+def rule_enabled_default(ctx):
+    """ENABLED-DEFAULT: the legacy attribute state (`State::new_impl`, 16 derives) decides which un-annotated fields / variants take part from the *first* field or variant that says anything about enabling - `#[x]`/`#[x(forward)]` (enabled = Some(true)) switches the others off, `#[x(ignore)]` (Some(false)) leaves them on - and, for `Error`, never switches anything off (its fields are inferred). The selecting closure is evaluated on enabled in {None, Some(true), Some(false)}, the default on trait in {Error, other} x first match in {none, Some(true), Some(false)}."""
+    fn = _fn(ctx, "impl/src/utils.rs", "State::new_impl")
+    w = ctx.where(fn.file, fn.node)
+    fm = _let(fn, "first_match")
+    de = _let(fn, "default_enabled")
+    if fm is None or de is None:
+        raise A.AnchorLost("impl/src/utils.rs::State::new_impl", "`first_match` / `default_enabled`")
+    root, ops = A.chain(fm)
+    calls = [o for o in ops if o[0] == "m"]
+    if not calls or calls[-1][1] not in ("find_map", "find") or [o[1] for o in calls[:-1]] != ["iter"]:
+        raise A.AnchorLost("impl/src/utils.rs::State::new_impl", f"`first_match` is not a forward search: {A.render(fm)[:80]}")
+    last = fm
+    while A.kind(last) != "Expr::MethodCall":
+        last = last["expr"]
+    cl = last["args"][0] if last["args"] else None
+    for en in (O.NONE, O.some(True), O.some(False)):
+        case = f"enabled={_show(en)}"
+        ctx.instance(f"first_match:{case}", sample={"closure": A.render(cl) if cl else None, "case": case})
+        env = _FieldEnv({}, {"enabled": en})
+        try:
+            got = O._call_closure(cl, ["INFO"], env) if cl is not None and A.kind(cl) == "Expr::Closure" else O.TOP
+        except O.Return:
+            got = O.TOP
+        sel = (got != O.NONE) if (calls[-1][1] == "find_map" and O._is_opt(got)) else got if isinstance(got, bool) and calls[-1][1] == "find" else None
+        want = en != O.NONE
+        if sel is not want:
+            ctx.report(f"enabled-default:first_match:{case}", ctx.where(fn.file, fm), f"`first_match` (`{A.render(fm)[:90]}`) {'selects' if sel else 'skips' if sel is False else 'cannot be shown to ' + ('select' if want else 'skip')} an item with {case}: the default of un-annotated fields / variants must follow the *first* item that says anything about enabling (`#[x(ignore)]` first: the others stay enabled; `#[x]` first: the others are switched off)", {})
+    for tn in ('"Error"', '"Display"'):
+        for first in (None, True, False):
+            case = f"trait={tn},first={'none' if first is None else 'Some(' + str(first).lower() + ')'}"
+            ctx.instance(f"default_enabled:{case}", sample={"expr": A.render(de)[:120], "case": case})
+            env = _FieldEnv({"trait_name": ("lit", tn), "first_match": O.NONE if first is None else O.some("INFO")}, {"enabled": O.TOP if first is None else O.some(first)})
+            try:
+                got = O.ev(de, env)
+            except O.Return:
+                got = O.TOP
+            want = True if tn == '"Error"' else (True if first is None else not first)
+            if got is not want:
+                ctx.report(f"enabled-default:default:{case}", ctx.where(fn.file, de), f"`default_enabled` (`{A.render(de)[:90]}`) is {got if isinstance(got, bool) else 'not determined'} for {case}, expected {want}: " + ("derive(Error) infers its fields and must keep un-annotated ones enabled" if tn == '"Error"' else "un-annotated items are enabled exactly when the first annotated one does not enable itself"), {})
